@@ -887,6 +887,7 @@ def c15(tier):
         for fl in ('tsan', 'gxx'):
             specs.append({'seed': common.seed() * 23 + i, 'n_grammars': 6, 'n_inputs': 10 if q else 30, 'threads': [4, 16] if q else [2, 8, 16, 32], 'iters': 400 if q else 3000, 'flavour': fl, 'timeout': 240 if q else 1200})
     merge(ck, common.pmap(thc.worker, specs, jobs=4))
+    merge(ck, common.pmap(functor_identity_worker, ['clang']))      # the caller's functor objects are copied into the parser, never referenced or mutated
     ck.cov['rule'] = ('several const parser objects (constexpr and run-time constructed; generated lexers with string/regex/typed terms, a custom lexer, error recovery, contextual functors) are shared by '
                       '4..32 threads, each making a random mix of parse / verbose parse into its own stream / parse without stream / write_diag_str calls on accepted, rejected and recovering inputs, with '
                       'random yields injected in functors and stream insertions; monitors: g++ ThreadSanitizer (report blocks counted), comparison of every result with the result computed '
